@@ -14,7 +14,7 @@ PROP = {
              "uint8..64 / int8..64 of the reflection codec) placed after a prefix of 0..15 bits in the same cell (struct {P UintK; V T} "
              "built with reflect.StructOf), i.e. at every bit offset mod 8, with the all-ones value, the value with only the top and "
              "the lowest bit set, a random odd and a random value (thorough: all boundary values + 6 random): cell and decoded value "
-             "vs the model, direct round-trip oracle (key offset-roundtrip); (3a) the extension layer: SnakeData / Bytes / Text / TextComment / "
+             "vs the model, direct round-trip oracle (key offset-roundtrip); (2c) the tag grammars: tlb.ParseTag and parseTag (hook) on every struct tag of the shipped types (156 constructor / Magic tags, 3 field tags), on mutations of them (dropped character, swapped separator, appended characters, more than 32 bits of digits, upper case, maybe/^ prefixes, bits/bytes suffixes) and on random strings, answers compared with the model of the grammar (served by c03.dec); (3a) the extension layer: SnakeData / Bytes / Text / TextComment / "
              "FixedLengthText and the 16 bodies holding them, 25 (300 thorough) values each with snake lengths 0, < 400, 900..1040, "
              "1023, 1024, 2046..2048, > 3069 bits (so that, after the fields written before, the data ends before / exactly at / "
              "after the cell boundary and spills into 1, 2, 3 chained cells) and byte strings of 0, 1, 126, 127, 255 bytes, random bytes as well as text with 2-, 3- and 4-byte UTF-8 runes; (4) VM stacks of depth 0,1,2..5,12..41 whose entries are nulls, tiny ints and "
@@ -28,7 +28,7 @@ PROP = {
              "leaves SnakeData/Bytes/Text/FixedLengthText/SignedCoins/Anycast/dictionaries through small generators incl. empty, "
              "zero-length and > 1023-bit fills, one constructor per union, conditional block.tlb fields kept consistent with their "
              "flag) and the oracle Unmarshal(Marshal(v)) == v with equal re-encoding whenever Marshal succeeds - implementation "
-             "only, counted under explore|package|class|outcome, failures keyed opaque-roundtrip-<Type>; (5) every message and transaction "
+             "only, counted under explore|package|class|outcome, failures keyed opaque-roundtrip-<Type>; (4e) Decoder.Hasher(): a testdata block decoded with NewDecoder() gives the same transaction and message identity hashes as tlb.Unmarshal and its hasher agrees with Cell.Hash on re-encoded messages (key decoder-hasher); (5) every message and transaction "
              "of the five testdata blocks: decoded, re-encoded, hash compared with the source cell (transactions: modulo the out_msgs "
              "dictionary cell, whose label form is not unique), and the small ones run through the model. Per case tlb.Marshal -> cell "
              "(compared bit for bit and reference by reference with the model's cell), tlb.Unmarshal of that cell -> value (compared), "
@@ -45,8 +45,8 @@ PROP = {
                     "length-prefixed bytes, and all combinators over them and over embedded base descriptors); VM stacks decode to the reversed list (arguments top-first, "
                     "results bottom-first). coq/Properties/C03_gen.v re-checks wf_ty (pairwise prefix-free constructor tags, tag values "
                     "fit, rest-of-cell codecs last, widths) by vm_compute on the descriptors regenerated from today's struct definitions, "
-                    "that every exported type of the three packages is either claimed or listed with the reason, and prints the lists."),
-    'assumptions': ["types listed in Generated/TlbTypes.v as tlb_opaque (59: inline Hashmap (16) / HashmapAug(E) (7) / BinTree (3) fields, wallet PayloadV1toV4/PayloadHighload/W5Actions/W5ExtendedActions and the wallet message bodies built on them, abi JettonPayload/NFTPayload/InMsgBody and the bodies containing them, pointer-recursive GasLimitsPrices, VmCont/VmStkTuple/VmStack (own model), ChunkedData, stand-alone Anycast) and tlb_decode_only (35: hand-written decoder over the reflection encoder) are NOT covered; tlb_partial (16) lists claimed types in which some union constructor has no model (it is the empty union in the descriptor)",
+                    "that every exported type of the three packages is either claimed or listed with the reason; that the set of decode-only types is exactly the expected 35 and that exactly 9 of them are decode-side only BY THEOREM (their encoder-view descriptor satisfies never_encodes; C03_never_encodes: no value ever encodes); that every struct tag of the shipped types is parsed by tlb.ParseTag / parseTag exactly as the model of the tag grammar parses it and its value fits its length; and prints the lists."),
+    'assumptions': ["types listed in Generated/TlbTypes.v as tlb_opaque (59: inline Hashmap (16) / HashmapAug(E) (7) / BinTree (3) fields, wallet PayloadV1toV4/PayloadHighload/W5Actions/W5ExtendedActions and the wallet message bodies built on them, abi JettonPayload/NFTPayload/InMsgBody and the bodies containing them, pointer-recursive GasLimitsPrices, VmCont/VmStkTuple/VmStack (own model), ChunkedData, stand-alone Anycast) and tlb_decode_only (35: hand-written decoder over the reflection encoder; 9 of them never encode by theorem, the CryptoSignature family and McStateExtraOther do encode and round-trip on every explored value, BlockInfo/BlockHeader fail only by cell overflow which the structural criterion does not cover, the rest has no encoder-view descriptor) are NOT covered by the round-trip theorems; tlb_partial (16) lists claimed types in which some union constructor has no model (it is the empty union in the descriptor)",
                     "SnakeData/Bytes/Text are one codec in the model (bit string in a chain of cells); Bytes' multiple-of-8 check and Text's UTF-8 check on decoding are domain restrictions enforced by the generator; tlb.SignedCoins is modelled as sign bit + VarUInteger 16 of the absolute value",
                     "HashmapE fields are modelled as Maybe ^Cell with an uninterpreted dictionary cell (the dictionary codec is property C05); the harness builds the Go dictionary from that cell with the library's own decoder",
                     "tlb.BlkPrevInfo (two `$_` constructors, chosen by the enclosing BlockInfo) is a context-dependent union and is not claimed stand-alone",
@@ -67,7 +67,7 @@ META = {
              "The extracted model reproduces tlb.Marshal's cells and tlb.Unmarshal's values exactly on ~6.3k (quick) / ~43k "
              "(thorough) generated cases incl. all integer widths at their boundaries and the messages/transactions of the testdata blocks."),
     'design_ref': 'DESIGN.md §6 C03/C04, §7 F6 F7 F9 F19 F20',
-    'note': ("Repairs: F9 (Transaction.MarshalTLB added; tlb.Marshal(Transaction) used to panic), raw \"Cell\" jetton/NFT payloads encoded inline used to replace the enclosing cell (abi/jetton.go, abi/nfts.go), F6/F7 earlier, F19 by the C05 builder. "
+    'note': ("Repairs: abi.InMsgBody/ExtOutMsgBody kept a truncated raw body after a failed typed decode and InMsgBody encoded a raw body by replacing the enclosing cell (abi/messages.go); F9 (Transaction.MarshalTLB added; tlb.Marshal(Transaction) used to panic), raw \"Cell\" jetton/NFT payloads encoded inline used to replace the enclosing cell (abi/jetton.go, abi/nfts.go), F6/F7 earlier, F19 by the C05 builder. "
              "Not covered: 59 opaque + 35 decode-only types (listed per run by C03_gen.v). Trusted: Coq kernel, extraction, drivers, "
              "the reflect walk of harness/tlbdesc (its output is what the model interprets and is cross-checked by every case), C06 "
              "refinement of bit strings."),
